@@ -3,10 +3,12 @@ package c04
 
 import (
 	"bytes"
+	"context"
 	"encoding/json"
 	"fmt"
 	"strings"
 	"testing"
+	"time"
 
 	"github.com/0chain/common/core/statecache"
 	"github.com/linxGnu/grocksdb"
@@ -107,7 +109,12 @@ func TestSaveCompleteAndCrashSafe(t *testing.T) {
 				cdir := rounds.NewDir()
 				cs := grocksdb.CloneStore(pre, cdir)
 				cs.SetFailOnly(n)
+				// the caller reaches its wait a moment after the saving goroutine was started (see rounds.SaveCtx)
+				rounds.SaveCtx = func() context.Context {
+					return rounds.SlowCtx{Context: context.Background(), Pause: 300 * time.Microsecond}
+				}
 				_, _, cerr := rounds.ExecRound(cdir, prevRoot, rd)
+				rounds.SaveCtx = context.Background
 				cs.ResetFaults()
 				if cerr != nil && strings.HasPrefix(cerr.Error(), "HARNESS") {
 					rt.Fatalf("history %s: fault run round %d write %d: %v", desc, i, n, cerr)
